@@ -6,7 +6,7 @@
   sum / product / ... of what its operands denote.
 -/
 import Kingdon.Properties.C17
-import Kingdon.Lemmas.SourceRat
+import Kingdon.Lemmas.SourcePow
 namespace Kingdon.C17
 open Kingdon KP SrcPolyEq
 
@@ -40,7 +40,21 @@ theorem source_polynomial_eq_one_sound (p : Poly) (h : SrcPoly.poly_eq_int (poly
   rw [poly_eq_int_one] at h; exact eqOne_sound ρ p (by simpa using h)
 theorem source_polynomial_falsy_sound (p : Poly) (h : SrcPoly.poly_bool (polyOf p) = .ok false) : eval ρ p = 0 := by
   rw [poly_bool_eq] at h; exact toBool_false_sound ρ p (by simpa using h)
+
+/-- integer powers as the source computes them (`__pow__` → `power_supply` → `AdditionChains.minimal_chains`, all translated):
+    whenever `p ** n` returns, the exponent is positive and the result denotes the n-th power -/
+theorem source_polynomial_pow_exact (p : Poly) (n : Int) (r : Py.Poly) (h : SrcPoly.poly_pow (polyOf p) n = .ok r) :
+    0 < n ∧ ∃ q, r = polyOf q ∧ eval ρ q = eval ρ p ^ n.toNat := by
+  obtain ⟨hn, q, hq, rfl⟩ := poly_pow_sound p n r h
+  exact ⟨hn, q, rfl, eval_pow ρ p q n.toNat hq⟩
 end ring
+
+/-- the addition-chain table is found within the fuel of the translated `while` loop: `minimal_chains` returns for every limit -/
+theorem source_addition_chains_terminate (limit : Nat) (hl : 0 < limit) : ∃ r, SrcPoly.minimal_chains (Int.ofNat limit) = .ok r :=
+  minimal_chains_returns limit hl
+/-- rational powers of any integer exponent: what the source returns is what the model returns -/
+theorem source_rational_pow_is_model (r : RPoly) (n : Int) (out : Py.Rat) (h : SrcPoly.rat_pow (ratOf r) n = .ok out) :
+    n ≠ 0 ∧ ∃ q, RPoly.powInt r n = some q ∧ out = ratOf q := rat_pow_sound r n out h
 
 /-- on normal forms the zero tests of the source are exact -/
 theorem source_zero_tests_exact (p : Poly) (h : WF p) :
